@@ -16,6 +16,9 @@ TEXT = {
  "C05": ("Every registered stack-manipulation instruction of the nine types on every depth 0..N and every index class, compared with ONE generic position map.",
          "Trusted: the generic position map (harness/src/steps.rs position_map).",
          "exhaustive enumeration (type x op x depth x index) against one generic reference"),
+ "C08": ("All code trees up to S points x all indices / all pairs, every CODE surgery instruction by name compared with reference tree functions and with the property's own metamorphic equations; Item API checked directly.",
+         "Trusted: harness/src/treeops.rs (depth-first point indexing) and the CODE rows of refmodel.rs.",
+         "exhaustive small-scope enumeration of code trees against a reference model + metamorphic oracles"),
  "C09": ("Every vector instruction by name on all ordered pairs of a vector pool (lengths 0..N) x offsets/indices incl. extremes, compared with the reference rows and across build profiles.",
          "Trusted: reference rows (README overlap rule: result[j] = second[j] op top[j-offset]).",
          "exhaustive enumeration over vector pools against a reference model + build-profile differential"),
